@@ -275,3 +275,139 @@ Lemma ml_heap_limit_boundary :
   outcome_of (ml_fill_from_reader (Some 4) [] mb_new {| r_rest := [97; 98; 99; 10]%N; r_hist := [] |}) = HeapLimitError
   /\ contents_exceed_limit (Some 4) [97; 98; 99; 10]%N = false.
 Proof. split; vm_compute; reflexivity. Qed.
+
+(* fuel suffices: the fill always ends *)
+Lemma ml_fill_from_reader_fuel_suffices heap_limit rooms b r :
+  ml_fill_from_reader heap_limit rooms b r <> MlFuel.
+Proof.
+  intros H. destruct r as [stream hist].
+  pose proof (ml_fill_from_reader_allowed default_buffer_capacity heap_limit rooms b stream hist default_capacity_pos) as Hal.
+  fold (ml_fill_from_reader heap_limit rooms b {| r_rest := stream; r_hist := hist |}) in Hal.
+  rewrite H in Hal. exact Hal.
+Qed.
+
+Lemma ml_fill_from_file_fuel_suffices heap_limit rooms file_len b r :
+  ml_fill_from_file heap_limit rooms file_len b r <> MlFuel.
+Proof.
+  intros H. destruct r as [stream hist].
+  pose proof (ml_fill_from_file_allowed heap_limit rooms file_len b stream hist) as Hal.
+  rewrite H in Hal. exact Hal.
+Qed.
+
+(* the file variant of the search *)
+Lemma ml_search_file_outcomes cfg M heap_limit mmap_enabled reply_of rooms file_len b stream hist :
+  let f := ml_fill_from_file heap_limit rooms file_len b {| r_rest := stream; r_hist := hist |} in
+  let res := fst (fst (search_file_ml cfg M heap_limit mmap_enabled reply_of rooms file_len b {| r_rest := stream; r_hist := hist |})) in
+  ml_check_config cfg M heap_limit mmap_enabled = true ->
+  match outcome_of f with
+  | FilledWith c => c = stream /\ res = multi_line_run cfg M reply_of stream
+  | HeapLimitError => heap_limit_hit heap_limit stream = true /\ res = RunErr []
+  | ReadError => In RFail hist /\ res = RunErr []
+  | NoAnswer => False
+  end.
+Proof.
+  intros f res Hcfg. subst res. unfold search_file_ml. rewrite Hcfg. cbn [negb].
+  pose proof (ml_fill_from_file_allowed heap_limit rooms file_len b stream hist) as Hal.
+  fold f in Hal. fold f.
+  destruct f as [b' tr r'|b' tr r'|b' tr r'|]; cbn [outcome_of fill_allowed ml_after_fill fst] in *.
+  - destruct Hal as [Hc _]. split; [exact Hc|]. rewrite Hc. reflexivity.
+  - split; [exact Hal|reflexivity].
+  - split; [exact Hal|reflexivity].
+  - exact Hal.
+Qed.
+
+(* a configuration error comes before anything is read *)
+Lemma ml_search_config_error cfg M heap_limit mmap_enabled reply_of rooms b r :
+  ml_check_config cfg M heap_limit mmap_enabled = false ->
+  search_reader_ml cfg M heap_limit mmap_enabled reply_of rooms b r = (RunErr [], b, []).
+Proof. intros H. unfold search_reader_ml. rewrite H. reflexivity. Qed.
+
+(* Model/SearcherGlue.v searches "the decoded stream" in its multi-line branches; with the fill loops put in
+   (no heap limit, no transcoding, no failing read) the results are the same *)
+Lemma ml_search_reader_agrees_with_glue cfg M mmap_enabled reply_of rooms b st s hist :
+  multi_line_with_matcher cfg M = true -> failure_free hist ->
+  fst (search_reader_m cfg M (fun x => x) reply_of st s hist)
+  = fst (fst (search_reader_ml cfg M None mmap_enabled reply_of rooms b {| r_rest := s; r_hist := hist |})).
+Proof.
+  intros Hml Hff. unfold search_reader_m.
+  assert (Hcc : ml_check_config cfg M None mmap_enabled = check_config cfg M) by reflexivity.
+  destruct (check_config cfg M) eqn:Hc; cbn [negb].
+  - rewrite Hml. cbn [fst fill_multi_line ss_ml app].
+    pose proof (ml_search_reader_outcomes cfg M None mmap_enabled reply_of rooms b s hist) as Hout.
+    cbv zeta in Hout. rewrite Hcc in Hout. specialize (Hout eq_refl).
+    rewrite (ml_fill_from_reader_reads_everything None rooms b s hist Hff) in Hout.
+    cbn [fill_expected heap_limit_hit] in Hout. destruct Hout as [_ Hres]. symmetry. exact Hres.
+  - unfold search_reader_ml. rewrite Hcc. reflexivity.
+Qed.
+
+Lemma ml_search_file_agrees_with_glue cfg M reply_of rooms b st s hist :
+  multi_line_with_matcher cfg M = true ->
+  fst (search_file_m cfg M false false (fun x => x) reply_of st false s hist)
+  = fst (fst (search_file_ml cfg M None false reply_of rooms (length s) b {| r_rest := s; r_hist := [] |})).
+Proof.
+  intros Hml. unfold search_file_m. rewrite Hml.
+  assert (Hcc : ml_check_config cfg M None false = check_config cfg M) by reflexivity.
+  destruct (check_config cfg M) eqn:Hc; cbn [negb].
+  - cbn [fst fill_multi_line ss_ml app].
+    pose proof (ml_search_file_outcomes cfg M None false reply_of rooms (length s) b s []) as Hout.
+    cbv zeta in Hout. rewrite Hcc in Hout. specialize (Hout eq_refl).
+    rewrite (ml_fill_from_file_reads_everything None rooms (length s) b s [] (fun H => H)) in Hout.
+    cbn [fill_expected heap_limit_hit] in Hout. destruct Hout as [_ Hres]. symmetry. exact Hres.
+  - unfold search_file_ml. rewrite Hcc. reflexivity.
+Qed.
+
+(* ---------- the pass-through BomPeeker in front of the loop ---------- *)
+
+Lemma peek_loop_post fuel :
+  forall need got tr r, rmeasure r < fuel ->
+    match peek_loop fuel need got tr r with
+    | PeekOk got' _ r' => got' ++ r_rest r' = got ++ r_rest r /\ (forall x, In x (r_hist r') -> In x (r_hist r))
+    | PeekErr _ _ => In RFail (r_hist r)
+    | PeekFuel => False
+    end.
+Proof.
+  induction fuel as [|fuel IH]; intros need got tr r Hfuel; [lia|].
+  destruct need as [|need']; [cbn [peek_loop]; split; [reflexivity|auto]|].
+  cbn [peek_loop].
+  pose proof (reader_read_spec (S need') r) as Hrd.
+  destruct (reader_read (S need') r) as [g r'|r'|r'].
+  - destruct Hrd as (Happ & Hroom & Hend & Hmeas & Hhist).
+    destruct (Nat.eqb (length g) 0) eqn:Hz.
+    + apply Nat.eqb_eq in Hz. destruct g; [|cbn [length] in Hz; lia].
+      cbn [app] in Happ. rewrite Happ. split; [reflexivity|exact Hhist].
+    + apply Nat.eqb_neq in Hz.
+      assert (Hne : g <> []) by (intro He; rewrite He in Hz; cbn [length] in Hz; lia).
+      specialize (Hmeas Hne).
+      assert (Hpost := IH (S need' - length g) (got ++ g) (S need' :: tr) r' ltac:(lia)).
+      destruct (peek_loop fuel (S need' - length g) (got ++ g) (S need' :: tr) r').
+      * destruct Hpost as [Hs Hh]. split; [rewrite Hs, <- Happ, app_assoc; reflexivity|auto].
+      * apply Hhist. exact Hpost.
+      * exact Hpost.
+  - destruct Hrd as (Hrest & Hmeas & Hhist).
+    assert (Hpost := IH (S need') got (S need' :: tr) r' ltac:(lia)).
+    destruct (peek_loop fuel (S need') got (S need' :: tr) r').
+    + destruct Hpost as [Hs Hh]. split; [rewrite Hs, Hrest; reflexivity|auto].
+    + apply Hhist. exact Hpost.
+    + exact Hpost.
+  - exact Hrd.
+Qed.
+
+(* search_reader's loop reads through the peeker: still everything or the heap-limit error, and the prefetch
+   fails only with an error of the caller's reader *)
+Lemma ml_fill_behind_peeker_lemma heap_limit rooms b stream hist :
+  failure_free hist ->
+  exists got tr r', peek_loop (ml_fuel {| r_rest := stream; r_hist := hist |}) 3 [] [] {| r_rest := stream; r_hist := hist |}
+                    = PeekOk got tr r' /\
+    outcome_of (ml_fill_from_reader heap_limit rooms b (peeked_reader got r')) = fill_expected heap_limit stream.
+Proof.
+  intros Hff.
+  pose proof (peek_loop_post (ml_fuel {| r_rest := stream; r_hist := hist |}) 3 [] [] {| r_rest := stream; r_hist := hist |}
+                ltac:(unfold ml_fuel, rmeasure; cbn [r_rest r_hist]; lia)) as Hpost.
+  destruct (peek_loop _ 3 [] [] _) as [got tr r'| |]; cbn [r_rest r_hist app] in Hpost.
+  - exists got, tr, r'. split; [reflexivity|]. destruct Hpost as [Hs Hh].
+    unfold peeked_reader. rewrite Hs. apply ml_fill_from_reader_reads_everything.
+    intros Hin. apply Hff. destruct got; [apply Hh; exact Hin|].
+    destruct Hin as [Hx|Hin]; [discriminate|apply Hh; exact Hin].
+  - exfalso. exact (Hff Hpost).
+  - contradiction.
+Qed.
